@@ -67,7 +67,7 @@ def snap_inputs(fam, env):
             if snap == "micro":
                 # 1e-6 K lattice (the code rounds temperatures to 6 dp; see DESIGN 1.3)
                 f = round(float(v), 6)
-            elif Fraction(f) != v:
+            elif (v * 2 ** 30).denominator != 1:
                 # nearest multiple of 2^-30: exactly representable, sums/differences stay exact in float64
                 f = float(Fraction(round(v * 2 ** 30), 2 ** 30))
             out[k] = f
